@@ -18,7 +18,10 @@ from tensora.ir import ast as ir
 from . import sym
 from .sym import band, bimplies, bnot, bor, icmp, iadd, imul, isub, ite, zb, zi
 
-INT_LEAVES = [ir.IntegerLiteral(0), ir.IntegerLiteral(1), ir.IntegerLiteral(2), ir.Variable("x"), ir.Variable("y")]
+# -1 is outside the property's literal list but is the one other literal the generator emits
+# (desugared subtraction: x - y becomes x + -1 * y), so rules keyed on it are in scope
+INT_LEAVES = [ir.IntegerLiteral(0), ir.IntegerLiteral(1), ir.IntegerLiteral(2), ir.IntegerLiteral(-1),
+              ir.Variable("x"), ir.Variable("y")]
 FLOAT_LEAVES = [ir.FloatLiteral(0.0), ir.FloatLiteral(1.0), ir.FloatLiteral(1.5), ir.Variable("u"), ir.Variable("v")]
 BOOL_LEAVES = [ir.BooleanLiteral(True), ir.BooleanLiteral(False), ir.Variable("p"), ir.Variable("q")]
 
